@@ -1614,8 +1614,9 @@ class UdpApp:
     """A local application's UDP socket with a recorder thread: .received = [(label, payload, time)]
     where label is the (host, port) the client wrote in the SOCKS5-UDP header (None if malformed)."""
 
-    def __init__(self, name="app"):
+    def __init__(self, name="app", by_name=False):
         self.name = name
+        self.by_name = by_name    # address every target as "localhost" (ATYP 3) instead of 127.0.0.1
         self.sock = udp_app_socket()
         self.addr = self.sock.getsockname()
         self.received = []
@@ -1640,6 +1641,8 @@ class UdpApp:
             try:
                 if len(b) >= 4 and b[:3] == b"\x00\x00\x00":
                     label, off = decode_socks5_addr(b, 3)
+                    if label is not None and label[0] == "localhost":
+                        label = (LOOPBACK, label[1])      # a reply may name the target the way the application did
                     payload = b[off:]
             except (ValueError, IndexError):
                 label, payload = None, b
@@ -1653,6 +1656,8 @@ class UdpApp:
 
     def send(self, client_port, target_addr, payload, atyp=None):
         self.sent.append((tuple(target_addr), bytes(payload), time.monotonic()))
+        if self.by_name and atyp is None and target_addr[0] == LOOPBACK:
+            target_addr, atyp = ("localhost", target_addr[1]), 3
         try:
             return self.sock.sendto(socks5_udp_datagram(target_addr, payload, atyp), (LOOPBACK, client_port))
         except OSError as e:
